@@ -110,6 +110,12 @@ type clWorld struct {
 	incDust       map[string]*big.Rat // allowance for truncated incentive emissions, per denom
 	liquidAfterStart map[uint64]time.Duration // the same, counted from the record's start time
 	uptimeGov        bool                     // governance has changed the authorised uptimes during this history
+	// "square" histories (one in ten): price 4 and position bounds at prices whose square roots are short decimals
+	// (1.21, 1.44, 2.25, 6.25, 9), liquidity a round number: a swap can then end exactly on an initialised tick with
+	// nothing left over, for all four swap kinds
+	square      bool
+	squareStage int
+	squareL     int64
 	// the neighbour pool (0 = none) and its positions (id -> owner index)
 	nbrID  uint64
 	nbrPos map[uint64]int
@@ -162,6 +168,7 @@ func newCLWorld(c *vk.Ctx, r *vk.Rng, hooks clHooks) *clWorld {
 	w.funder = w.ch.Accs[6]
 	w.spacing = clSpacings[r.Intn(4)]
 	w.spread = cltypes.AuthorizedSpreadFactors[r.Intn(len(cltypes.AuthorizedSpreadFactors))]
+	w.square = r.Intn(10) == 0
 	k := w.ch.App.ConcentratedLiquidityKeeper
 	// the spread-reward and the incentive accumulators migrated to scaled values at different pool ids:
 	// a pool can be above one threshold and below the other
@@ -253,6 +260,45 @@ func (w *clWorld) nbrCreate(owner int, lo, hi int64) {
 func (w *clWorld) nbrStep() string {
 	r := w.r
 	k := w.ch.App.ConcentratedLiquidityKeeper
+	if r.Intn(3) == 0 {
+		// one owner claims for all its positions of both pools in one message, in a seed-chosen order
+		for _, o := range []int{r.Intn(len(w.lps)), 0, 1, 2, 3} {
+			var ids []uint64
+			for _, p := range w.sortedPos() {
+				if p.owner == o && (w.hooks.protect == nil || !w.hooks.protect(p)) {
+					ids = append(ids, p.id)
+				}
+			}
+			nMain := len(ids)
+			var nb []uint64
+			for id, oo := range w.nbrPos {
+				if oo == o {
+					nb = append(nb, id)
+				}
+			}
+			sort.Slice(nb, func(a, b int) bool { return nb[a] < nb[b] })
+			ids = append(ids, nb...)
+			if nMain == 0 || len(nb) == 0 {
+				continue
+			}
+			for a := len(ids) - 1; a > 0; a-- {
+				b := r.Intn(a + 1)
+				ids[a], ids[b] = ids[b], ids[a]
+			}
+			res := w.ch.Exec(&cltypes.MsgCollectIncentives{PositionIds: ids, Sender: w.lps[o].Addr.String()})
+			w.c.Logf("CollectIncentives(owner %d, positions of both pools %v) ok=%v %s", o, ids, res.OK(), trunc(res.ErrString(), 120))
+			if res.OK() {
+				var rsp cltypes.MsgCollectIncentivesResponse
+				unpackResp(res, "MsgCollectIncentivesResponse", &rsp)
+				w.incentClaimed = w.incentClaimed.Add(rsp.CollectedIncentives...)
+				w.c.Count("claims_spanning_both_pools", 1)
+				if !rsp.ForfeitedIncentives.IsZero() {
+					w.c.Count("claims_spanning_both_pools_with_forfeits", 1)
+				}
+			}
+			return "collect-incentives"
+		}
+	}
 	switch r.Intn(4) {
 	case 0, 1:
 		np, err := k.GetConcentratedPoolById(w.ch.Ctx, w.nbrID)
@@ -428,8 +474,70 @@ func trunc(s string, n int) string {
 }
 
 // firstPosition sets the initial price with a seed-chosen amount ratio.
+// squareTick is the tick of a price in [1, 10) given in millionths.
+func squareTick(priceMicro int64) int64 { return priceMicro - 1_000_000 }
+
+// squareStep runs the scripted opening of a "square" history, one operation per call.
+func (w *clWorld) squareStep() string {
+	r := w.r
+	L := sdkmath.NewInt(w.squareL)
+	stage := w.squareStage
+	w.squareStage++
+	switch stage {
+	case 0: // A = [1.44, 6.25) around the price 4: amount0 = L(1/2 − 1/2.5) = L/10, amount1 = L(2 − 1.2) = 4L/5
+		w.createPosition(1, squareTick(1_440_000), squareTick(6_250_000), L.QuoRaw(10), L.MulRaw(4).QuoRaw(5), "square-A")
+		w.trackInRange()
+		return "create"
+	case 1: // B = [1.21, 2.25) below the price: amount1 = L(1.5 − 1.1) = 2L/5 ; C = [6.25, 9) above it: amount0 = L(1/2.5 − 1/3) = L/15
+		w.createPosition(2, squareTick(1_210_000), squareTick(2_250_000), sdkmath.ZeroInt(), L.MulRaw(2).QuoRaw(5), "square-B")
+		w.createPosition(3, squareTick(6_250_000), squareTick(9_000_000), L.QuoRaw(15), sdkmath.ZeroInt(), "square-C")
+		w.trackInRange()
+		return "create"
+	case 2: // the opening full-range position leaves: the active liquidity is exactly L
+		for _, p := range w.sortedPos() {
+			if p.tag == "first" {
+				res := w.ch.Exec(&cltypes.MsgWithdrawPosition{PositionId: p.id, Sender: w.lps[p.owner].Addr.String(), LiquidityAmount: p.liq})
+				w.c.Logf("square: WithdrawPosition(%d) ok=%v %s", p.id, res.OK(), trunc(res.ErrString(), 120))
+				if res.OK() {
+					w.collectOnWithdraw(res)
+					delete(w.pos, p.id)
+				}
+			}
+		}
+		w.trackInRange()
+		return "withdraw"
+	default: // the swap that ends exactly on the boundary tick (sqrt price 1.5 going down, 2.5 going up)
+		zfo, exactIn := r.Bool(), r.Bool()
+		var amt sdkmath.Int
+		switch {
+		case zfo && !exactIn: // token1 out: L(2 − 1.5)
+			amt = L.QuoRaw(2)
+		case !zfo && !exactIn: // token0 out: L(1/2 − 1/2.5)
+			amt = L.QuoRaw(10)
+		default:
+			a, ok := w.amountToNextTick(zfo, true)
+			if !ok {
+				return ""
+			}
+			amt = a
+		}
+		w.c.Logf("square: liquidity %s, landing swap zfo=%v exactIn=%v amount %s", w.pool().GetLiquidity(), zfo, exactIn, amt)
+		w.swap(r.Intn(len(w.traders)), zfo, exactIn, amt, "square-landing")
+		return "swap"
+	}
+}
+
 func (w *clWorld) firstPosition() bool {
 	r := w.r
+	if w.square {
+		w.squareL = 30_000_000 * (1 + r.I64n(1_000_000))
+		minT := roundDown(cltypes.MinInitializedTick+w.spacing-1, w.spacing)
+		maxT := roundDown(cltypes.MaxTick, w.spacing)
+		if p, _ := w.createPosition(0, minT, maxT, sdkmath.NewInt(1_000_000_000_000), sdkmath.NewInt(4_000_000_000_000), "first"); p != nil {
+			return true
+		}
+		w.square = false
+	}
 	for attempt := 0; attempt < 6; attempt++ {
 		// price = a1/a0 spanning 1e-12 … 1e38, biased to decade boundaries and to ~1
 		e := int(r.Range(-11, 36))
@@ -684,6 +792,9 @@ func (w *clWorld) step(mix string) string {
 		w.c.Logf("governance: authorised uptimes = %v", sub)
 		return "governance-uptimes"
 	}
+	if w.square && w.squareStage < 4 {
+		return w.squareStep()
+	}
 	if w.nbrID != 0 && r.Intn(6) == 0 {
 		if op := w.nbrStep(); op != "" {
 			return op
@@ -876,6 +987,13 @@ func (w *clWorld) step(mix string) string {
 			var rsp cltypes.MsgCollectIncentivesResponse
 			unpackResp(res, "MsgCollectIncentivesResponse", &rsp)
 			w.incentClaimed = w.incentClaimed.Add(rsp.CollectedIncentives...)
+			if len(ids) > 1 {
+				w.c.Count("claims_spanning_both_pools", 1)
+				if !rsp.ForfeitedIncentives.IsZero() {
+					w.c.Count("claims_spanning_both_pools_with_forfeits", 1)
+					w.c.Logf("  forfeited %s", rsp.ForfeitedIncentives)
+				}
+			}
 			aft(res, p.id)
 		}
 		return "collect-incentives"
